@@ -13,6 +13,7 @@ def setup():
     if TP is not None:
         return
     TP, CA, LK = common.mako("template", "cache", "lookup")
+    BK.install(CA.CacheImpl)
     CA.register_plugin("refdict", "props.c17backend", "RefDict")
     CA.register_plugin("refdictctx", "props.c17backend", "RefDictCtx")
 
@@ -257,10 +258,11 @@ def on_two(p, r, exc, acc):
 # ------------------------------------------------------------------ cached sections along an inheritance chain: each template owns its entries
 INH_FILES = {
     "base": '<%def name="nav()" cached="True">base-nav${count("bn")}</%def><%block name="side" cached="True">base-side${count("bs")}</%block>B(${nav()}|${next.body()})',
-    "child": '<%inherit file="base"/><%def name="nav()" cached="True">child-nav${count("cn")}</%def>${nav()}',
-    "child2": '<%inherit file="base"/><%def name="nav()" cached="True">child2-nav${count("c2n")}</%def>${nav()}',
+    "child": '<%inherit file="base"/><%namespace name="lib" file="lib"/><%def name="nav()" cached="True">child-nav${count("cn")}</%def>${nav()}~${lib.nav()}~${local.get_namespace("lib").nav()}',
+    "child2": '<%inherit file="base"/><%namespace name="lib" file="lib"/><%def name="nav()" cached="True">child2-nav${count("c2n")}</%def>${nav()}~${lib.nav()}~${local.get_namespace("lib").nav()}',
+    "lib": '<%def name="nav()" cached="True">lib-nav${count("ln")}</%def>',
 }
-INH_OPS = ["render-child", "render-child2", "invalidate_def-nav@base", "invalidate_def-nav@child", "invalidate-render_side@base"]
+INH_OPS = ["render-child", "render-child2", "invalidate_def-nav@base", "invalidate_def-nav@child", "invalidate-render_side@base", "invalidate_def-nav@lib"]
 
 
 def inh_run(LKm, ops):
@@ -305,7 +307,8 @@ def inh_expected(ops):
             who = op[7:]
             # the side block is declared by base only: it renders at its position in base - which precedes B( - from base's own cache
             o = sect("base", "render_side", "base-side", "bs") + "B(" + sect("base", "render_nav", "base-nav", "bn") + "|" + \
-                sect(who, "render_nav", who + "-nav", {"child": "cn", "child2": "c2n"}[who]) + ")"
+                sect(who, "render_nav", who + "-nav", {"child": "cn", "child2": "c2n"}[who]) + "~" + \
+                sect("lib", "render_nav", "lib-nav", "ln") + "~" + sect("lib", "render_nav", "lib-nav", "ln") + ")"
         elif op.startswith("invalidate_def-"):
             name, tmpl = op[len("invalidate_def-"):].split("@")
             store.pop((tmpl, "render_" + name), None)
@@ -393,7 +396,8 @@ def make_replay(c):
 sys.path.insert(0, "/verif")
 CASE = __CASE__
 import mako.lookup as LK, mako.template as TP, mako.cache as CA
-from props import C17
+from props import C17, c17backend as BK
+BK.install(CA.CacheImpl)
 CA.register_plugin("refdict", "props.c17backend", "RefDict")
 bad = None
 if "inherit_ops" in CASE:
@@ -418,6 +422,7 @@ KIND = __KIND__
 import mako.template as TP, mako.cache as CA
 from mako.lookup import TemplateLookup
 from props import C17, c17backend as BK
+BK.install(CA.CacheImpl)
 CA.register_plugin("refdict", "props.c17backend", "RefDict")
 CA.register_plugin("refdictctx", "props.c17backend", "RefDictCtx")
 bad = None
